@@ -525,4 +525,4 @@ impl TmplGroup {
 // verification hooks (glass_easel_verif): compiled only under the cfg guard
 #[cfg(any(kani, glass_easel_verif))]
 #[path = "/verif/hooks/tc_group.rs"]
-mod verif;
+pub mod verif;
